@@ -152,3 +152,61 @@ func VerifH_C07_continuation() {
 	_, _ = parseContinuationMessage(data, sb)
 	vrt.Covered("continuation-parsed")
 }
+
+// reader-side filter decoders on arbitrary chunk bytes
+func VerifH_C07_lzf_decompress() {
+	vrt.AllocBudget(1 << 20)
+	n := 5
+	if vrt.Thorough() {
+		n = 8
+	}
+	data := verifBuf(n)
+	out, err := lzfDecompress(data)
+	if err == nil {
+		_ = len(out)
+	}
+	vrt.Covered("lzf-decoded")
+}
+
+func VerifH_C07_filters_apply() {
+	vrt.AllocBudget(1 << 20)
+	data := verifBuf(8)
+	var f Filter
+	if vrt.Bool() {
+		f = Filter{ID: FilterShuffle, NumClientData: 1, ClientData: []uint32{vrt.U32()}}
+	} else {
+		f = Filter{ID: FilterFletcher}
+	}
+	fpm := &FilterPipelineMessage{Version: 2, NumFilters: 1, Filters: []Filter{f}}
+	_, _ = fpm.ApplyFilters(data)
+	vrt.Covered("filters-applied")
+}
+
+// nested compound datatype (version 3), depth forked: parsing work must stay proportional to the message size.
+// The engine's step budget is the bound: a parse that needs more than it is reported (label bounded-parse-work).
+func verifNestedCompound(depth int) []byte {
+	// innermost member type: 4-byte fixed point
+	inner := []byte{0x10, 0x08, 0x00, 0x00, 4, 0, 0, 0, 0, 0, 32, 0}
+	size := uint32(4)
+	msg := inner
+	for d := 0; d < depth; d++ {
+		// compound v3: class 6, version 3, one member "m\0", byte offset (1 byte since size < 256), member type
+		hdr := []byte{0x36, 0x01, 0x00, 0x00, byte(size), byte(size >> 8), byte(size >> 16), byte(size >> 24)}
+		member := append([]byte{'m', 0, 0}, msg...)
+		msg = append(hdr, member...)
+	}
+	return msg
+}
+
+func VerifH_C07_datatype_nested() {
+	depth := []int{1, 2, 8, 40}[vrt.Choice(4)]
+	msg := verifNestedCompound(depth)
+	// one symbolic byte in the innermost type's bit field
+	msg[len(msg)-11] = vrt.U8()
+	vrt.StepBudget(2000000)
+	dt, err := ParseDatatypeMessage(msg)
+	if err == nil && dt.Class == DatatypeCompound {
+		_, _ = ParseCompoundType(dt)
+	}
+	vrt.Covered("nested-parsed")
+}
